@@ -6,6 +6,8 @@
  * targets and sources are slot numbers and MAY coincide (merge into either operand).
  *
  *   dinit i | dadd i x | dmerge t a b | dset i count min max m1 m2 m3 m4 | dget i | dstat i
+ *   xnew | xadd x | xsum i        a cmb_dataset: add values, cmb_dataset_summarize into d[i]      (users of the summaries,
+ *   tnew | tadd x t | tfin t | tsum i   a cmb_timeseries: cmb_timeseries_summarize into w[i]       test part only)
  *   winit i | wadd i x w | wmerge t a b | wset i count min max m1 m2 m3 m4 wsum | wget i | wstat i
  *
  * Every library call is bracketed by feclearexcept / fetestexcept: "fe=<mask>" tells the caller whether the IEEE
@@ -24,12 +26,16 @@
 
 #include "cmb_datasummary.h"
 #include "cmb_wtdsummary.h"
+#include "cmb_dataset.h"
+#include "cmb_timeseries.h"
 
 #pragma STDC FENV_ACCESS ON
 
 #define NSLOT 8
 static struct cmb_datasummary d[NSLOT];
 static struct cmb_wtdsummary w[NSLOT];
+static struct cmb_dataset *xds = NULL;
+static struct cmb_timeseries *xts = NULL;
 static sigjmp_buf jb;
 
 static void on_abort(int sig)
@@ -191,6 +197,35 @@ int main(void)
             STAT(cmb_wtdsummary_skewness(q));
             STAT(cmb_wtdsummary_kurtosis(q));
             printf("\n");
+        }
+        else if (strcmp(op, "xnew") == 0) {
+            if (xds != NULL) cmb_dataset_destroy(xds);
+            xds = cmb_dataset_create();
+            printf("ok 0 fe=0\n");
+        }
+        else if (strcmp(op, "xadd") == 0 && n == 2) {
+            printf("ok %" PRIu64 " fe=0\n", cmb_dataset_add(xds, strtod(tok[1], NULL)));
+        }
+        else if (strcmp(op, "xsum") == 0 && n == 2) {
+            feclearexcept(FE_ALL_EXCEPT);
+            const uint64_t r = cmb_dataset_summarize(xds, &d[slot(tok[1])]);
+            printf("ok %" PRIu64 " fe=%d\n", r, fe_mask());
+        }
+        else if (strcmp(op, "tnew") == 0) {
+            if (xts != NULL) cmb_timeseries_destroy(xts);
+            xts = cmb_timeseries_create();
+            printf("ok 0 fe=0\n");
+        }
+        else if (strcmp(op, "tadd") == 0 && n == 3) {
+            printf("ok %" PRIu64 " fe=0\n", cmb_timeseries_add(xts, strtod(tok[1], NULL), strtod(tok[2], NULL)));
+        }
+        else if (strcmp(op, "tfin") == 0 && n == 2) {
+            printf("ok %" PRIu64 " fe=0\n", cmb_timeseries_finalize(xts, strtod(tok[1], NULL)));
+        }
+        else if (strcmp(op, "tsum") == 0 && n == 2) {
+            feclearexcept(FE_ALL_EXCEPT);
+            const uint64_t r = cmb_timeseries_summarize(xts, &w[slot(tok[1])]);
+            printf("ok %" PRIu64 " fe=%d\n", r, fe_mask());
         }
         else {
             fprintf(stderr, "bad op: %s (%d tokens)\n", op, n);
